@@ -135,6 +135,7 @@ void registerKernels(std::vector<Case>&);
 void registerData(std::vector<Case>&);
 void registerOpt(std::vector<Case>&);
 void registerExtra(std::vector<Case>&);
+void registerMoo(std::vector<Case>&);
 
 } // namespace c18
 #endif
